@@ -3,8 +3,8 @@ import CollectionsC.Proofs.ListTraverse
 /-! Iterator **programs**: arbitrary sequences of `next` / `remove` / `replace` / `add` / `index` calls on
 one iterator (ascending and descending iterator of `cc_list.c`, iterator of `cc_slist.c`) and on the zip
 iterators, under an arbitrary refusal schedule.  Every program that respects the documented
-contract (`add` only with a current element; for the doubly linked list at most one structural change
-per yielded element) behaves exactly like the same program on the ideal cursor, on which the refused
+contract (`add` only with a current element: one was yielded and not removed since; any number of `add`s
+may follow one `next`) behaves exactly like the same program on the ideal cursor, on which the refused
 `add`s did not happen. -/
 namespace CC
 open CC Chain
@@ -63,14 +63,13 @@ theorem progRun_refines {σ τ ι ο : Type} (ms : σ → ι → ο × σ) (ss :
 namespace LSeqP
 open LSeq (Cursor)
 
-/-- the documented contract of `iter_add`: there is a current element; for the doubly linked list
-(`follow = false`) it was yielded by the latest `next` and no structural change happened since
-(`dsc`: descending iterator) -/
-def legal (follow dsc : Bool) (c : Cursor) : IOp → Bool
-  | .add _ =>
-    match c.cur with
-    | none => false
-    | some k => follow || (if dsc then c.pos == k else c.pos == k + 1)
+/-- the documented contract of `iter_add` ("only after a call to next"): there is a current element, i.e. the latest
+`next` yielded one and it was not removed since.  Any number of `add`s may follow one `next` (since the repair of
+defect L6 this includes the ascending iterator of the doubly linked list, whose second `add` links the new node directly
+behind the yielded element, in front of the node added before).  The parameters are kept for the callers: the
+contract is the same for all five iterators. -/
+def legal (_follow _dsc : Bool) (c : Cursor) : IOp → Bool
+  | .add _ => c.cur.isSome
   | _ => true
 
 def step (follow dsc : Bool) (s : List Nat × Cursor) (op : IOp) (refused : Bool) : IOut × (List Nat × Cursor) :=
@@ -85,11 +84,8 @@ def step (follow dsc : Bool) (s : List Nat × Cursor) (op : IOp) (refused : Bool
 
 def run (follow dsc : Bool) := specRun (step follow dsc) (fun s => legal follow dsc s.2)
 
-def zlegal (follow : Bool) (c : Cursor) : ZOp → Bool
-  | .add _ _ =>
-    match c.cur with
-    | none => false
-    | some k => follow || c.pos == k + 1
+def zlegal (_follow : Bool) (c : Cursor) : ZOp → Bool
+  | .add _ _ => c.cur.isSome
   | _ => true
 
 def zstep (follow : Bool) (s : List Nat × List Nat × Cursor) (op : ZOp) (refused : Bool) : ZOut × (List Nat × List Nat × Cursor) :=
@@ -305,9 +301,8 @@ theorem iterStep_sim (t : Triple) (m0 : Mem) (n0 : Nat) (a : List Nat × LSeq.Cu
     cases hc : c.cur with
     | none => simp [hc] at hl
     | some k =>
-      simp only [hc, Bool.false_or, Bool.false_eq_true, if_false, beq_iff_eq] at hl
-      obtain ⟨it', e, hr'⟩ := iterAdd_ofList (t := t) xs c it x k m hr hc hl
-      have hk : k + 1 ≤ xs.length := by have := hr.le; omega
+      obtain ⟨it', e, hr'⟩ := iterAdd_ofList (t := t) xs c it x k m hr hc
+      have hk : k + 1 ≤ xs.length := by have := hr.le; have := hr.cur k hc; omega
       simp only [iterStep, LSeqP.step, Bool.false_eq_true, if_false, e]
       by_cases ha : (m.allocT t).1 = true
       · simp only [ha, if_true, stFlag_ok, Bool.false_eq_true, if_false]
@@ -378,8 +373,7 @@ theorem diterStep_sim (t : Triple) (m0 : Mem) (n0 : Nat) (a : List Nat × LSeq.C
     cases hc : c.cur with
     | none => simp [hc] at hl
     | some k =>
-      simp only [hc, Bool.false_or, if_true, beq_iff_eq] at hl
-      obtain ⟨it', e, hr'⟩ := diterAdd_ofList (t := t) xs c it x k m hr hc hl
+      obtain ⟨it', e, hr'⟩ := diterAdd_ofList (t := t) xs c it x k m hr hc
       have hk : k ≤ xs.length := by have := (hr.cur k hc).2; omega
       simp only [iterStep, LSeqP.step, if_true, e]
       by_cases ha : (m.allocT t).1 = true
@@ -455,9 +449,8 @@ theorem zipStep_sim (t t2 : Triple) (m0 : Mem) (xs0 ys0 : List Nat) (a : List Na
     cases hc : c.cur with
     | none => simp [hc] at hl
     | some k =>
-      simp only [hc, Bool.false_or, beq_iff_eq] at hl
-      obtain ⟨z', e, hr'⟩ := zipAdd_ofList (t := t) (t2 := t2) xs ys c z x y k m hr hc hl
-      have hpos := hl
+      obtain ⟨z', e, hr'⟩ := zipAdd_ofList (t := t) (t2 := t2) xs ys c z x y k m hr hc
+      have hpos := hr.cur k hc
       have hk1 : k + 1 ≤ xs.length := by have := hr.le1; omega
       have hk2 : k + 1 ≤ ys.length := by have := hr.le2; omega
       have hadd := hm.add (xs' := (LSeq.zitAdd false xs ys c x y).1) (ys' := (LSeq.zitAdd false xs ys c x y).2.1)
